@@ -245,6 +245,8 @@ def impl_predicates(pid, op, impl):
         hits.append(("C18", "a read-only operation modified its argument"))
     if "bytes-with-error" in impl or "value-with-error" in impl or "message-with-error" in impl:
         hits.append(("C20", "bytes / value returned together with an error"))
+    if "BAD-STRUCTURE(" in impl:
+        hits.append(("C05", "a decoder accepted an input that does not have the structure C05 demands: " + impl[impl.index("BAD-STRUCTURE("):][:120]))
     if "TAGGED-LABEL" in impl:
         hits.append(("C05", "a decoder accepted a header label that is a tagged item, not an integer or text"))
     if "empty-signature-emitted" in impl:
